@@ -41,15 +41,25 @@ package cmd
 // loop 2/3: with replacement, each slot j independently replaced with probability 1/totaltrees
 // ---------------------------------------------------------------------------
 
+// readTrees / readTree: the file named by the caller is opened and read with the tree format the --format option selected
 //@ func cmd.readTrees
-//@   allocates chan, iface
+//@   flag noframe
+//@   flag countcalls
+//@   allocates chan, iface, bufio.Reader
 //@   assigns nothing
+//@   call io/utils.GetReader [the_file_the_caller_names] a0 == infile
+//@   call io/utils.ReadMultiTrees [read_in_the_selected_format_only_when_the_file_could_be_opened] a0 == treereader && a1 == treeformat && err == nil
 //@   ensures [channel_on_success] err == nil ==> treeChannel != nil && treefile != nil
+//@   ensures [nothing_is_read_when_the_file_cannot_be_opened] ghost(ncalls_ReadMultiTrees) == old(ghost(ncalls_ReadMultiTrees)) + (err == nil ? 1 : 0)
 
 //@ func cmd.readTree
+//@   flag noframe
+//@   flag countcalls
 //@   allocates tree.Tree, tree.Node, tree.Edge, iface
 //@   assigns nothing
+//@   call io/utils.ReadTree [the_file_the_caller_names_in_the_selected_format] a0 == infile && a1 == treeformat && infile != "none"
 //@   ensures [tree_on_success] err == nil ==> t != nil
+//@   ensures [no_file_is_an_error] infile == "none" ==> err != nil
 
 //@ func cmd.openWriteFile
 //@   allocates iface
@@ -132,6 +142,7 @@ package cmd
 //@   call math/rand.Seed [a_given_seed_is_used_as_it_is_only_minus_one_means_the_clock] old(seed) != -1 ==> a0 == old(seed)
 //@   call time.Now [the_clock_is_read_only_for_the_default_seed] old(seed) == -1
 //@   ensures [seeded_exactly_once] ghost(ncalls_Seed) == old(ghost(ncalls_Seed)) + 1
+//@   ensures [the_format_option_selects_the_reader_newick_when_unknown] treeformat == (rootInputFormat == "nexus" ? 1 : (rootInputFormat == "phyloxml" ? 2 : (rootInputFormat == "nextstrain" ? 3 : 0)))
 //@   ensures [a_given_seed_is_left_as_it_is] old(seed) != -1 ==> seed == old(seed)
 //@   ensures [the_default_seed_means_the_clock_whether_written_out_or_omitted] old(seed) == -1 ==> ghost(ncalls_Now) == old(ghost(ncalls_Now)) + 1
 
@@ -411,3 +422,58 @@ package cmd
 //@   call (*tree.Tree).ReinitIndexes [the_reference_tree_is_indexed_before_the_computation] a0 == refTree && ghost(ncalls_TBE) == old(ghost(ncalls_TBE))
 //@   call support.TBE [reference_tree_bootstrap_trees_threads_and_the_switches_each_in_its_place] a0 == refTree && a1 == boottreechan && a2 == rootCpus && a3 == (rawSupportOutputFile != "none") && a4 == movedtaxa && a5 == taxperbranches && a6 == boosterdistcutoff && a7 == supportLog && a8 == nil && ghost(ncalls_ReinitIndexes) == old(ghost(ncalls_ReinitIndexes)) + 1
 //@   call (*tree.Tree).Newick [trees_are_written_only_after_a_successful_computation_the_raw_one_only_when_asked_for] err == nil && ghost(ncalls_TBE) == old(ghost(ncalls_TBE)) + 1 && (a0 == refTree || (a0 == rawtree && rawSupportOutputFile != "none"))
+
+// ---------------------------------------------------------------------------
+// The ancestral reconstruction commands (property C12): the algorithm named by the option (case-insensitively) is the
+// one that runs, on the tree just read, with the tip data read from the option's file and the random-resolution switch
+// as given; the annotated tree is written only after a successful reconstruction
+// ---------------------------------------------------------------------------
+//@ define algocode(s string) int = strlower(s) == "acctran" ? 1 : (strlower(s) == "deltran" ? 0 : (strlower(s) == "downpass" ? 2 : 3))
+//@ func cmd.acrCmd.RunE
+//@   flag noframe
+//@   flag countcalls
+//@   recv treechan [message_is_a_tree_or_an_error] msg.Err == nil ==> msg.Tree != nil
+//@   call cmd.parseTipStates [the_tip_states_come_from_the_states_option] a0 == acrstates
+//@   call acr.ParsimonyAcr [the_named_algorithm_on_the_tree_just_read_with_the_tip_states_and_the_switch_as_given] a0 == t.Tree && a1 == tipstates && a2 == algocode(parsimonyAlgo) && a3 == acrrandomresolve && (strlower(parsimonyAlgo) == "acctran" || strlower(parsimonyAlgo) == "deltran" || strlower(parsimonyAlgo) == "downpass" || strlower(parsimonyAlgo) == "none")
+//@   call (*tree.Tree).Newick [the_annotated_tree_is_written_only_after_a_successful_reconstruction] a0 == t.Tree && err == nil && ghost(ncalls_ParsimonyAcr) == atHead(ghost(ncalls_ParsimonyAcr)) + 1
+//@   loop 1
+//@     step [every_tree_read_is_reconstructed_once_and_written_once] ghost(ncalls_ParsimonyAcr) == atHead(ghost(ncalls_ParsimonyAcr)) + 1 && ghost(ncalls_Newick) == atHead(ghost(ncalls_Newick)) + 1
+//@ func cmd.asrCmd.RunE
+//@   flag noframe
+//@   flag countcalls
+//@   recv treechan [message_is_a_tree_or_an_error] msg.Err == nil ==> msg.Tree != nil
+//@   call asr.ParsimonyAsr [the_named_algorithm_on_the_tree_just_read_with_the_alignment_and_the_switch_as_given] a0 == t.Tree && a1 == align && a2 == algocode(parsimonyAlgo) && a3 == asrrandomresolve && (strlower(parsimonyAlgo) == "acctran" || strlower(parsimonyAlgo) == "deltran" || strlower(parsimonyAlgo) == "downpass" || strlower(parsimonyAlgo) == "none")
+//@   call (*tree.Tree).Newick [the_annotated_tree_is_written_only_after_a_successful_reconstruction] a0 == t.Tree && err == nil && ghost(ncalls_ParsimonyAsr) == atHead(ghost(ncalls_ParsimonyAsr)) + 1
+//@   loop 1
+//@     step [every_tree_read_is_reconstructed_once_and_written_once] ghost(ncalls_ParsimonyAsr) == atHead(ghost(ncalls_ParsimonyAsr)) + 1 && ghost(ncalls_Newick) == atHead(ghost(ncalls_Newick)) + 1
+// reads one "tip,state" pair per line (thin)
+//@ func cmd.parseTipStates
+//@   allocates map[string]string, iface, bufio.Reader
+//@   assigns nothing
+//@   ensures [a_table_or_an_error] result1 == nil ==> result0 != nil
+
+// ---------------------------------------------------------------------------
+// The reformat commands and the shared readers (properties C13, C02): the trees read from the input option are handed to
+// the writer of the requested format with its switch as given, and the text is written only when the conversion succeeded
+// ---------------------------------------------------------------------------
+//@ func cmd.nexusCmd.RunE
+//@   flag noframe
+//@   flag countcalls
+//@   call cmd.readTrees [the_trees_come_from_the_input_option] a0 == intreefile
+//@   call io/nexus.WriteNexus [all_trees_read_with_the_translate_switch_as_given] a0 == treechan && a1 == nexusTranslate
+//@   call (*os.File).WriteString [the_text_is_written_only_after_a_successful_conversion] a1 == nex && err == nil && ghost(ncalls_WriteNexus) == old(ghost(ncalls_WriteNexus)) + 1
+//@ func cmd.phyloxmlCmd.RunE
+//@   flag noframe
+//@   flag countcalls
+//@   call cmd.readTrees [the_trees_come_from_the_input_option] a0 == intreefile
+//@   call io/phyloxml.WritePhyloXML [all_trees_read] a0 == treechan
+//@   call (*os.File).WriteString [the_text_is_written_only_after_a_successful_conversion] a1 == xml && err == nil && ghost(ncalls_WritePhyloXML) == old(ghost(ncalls_WritePhyloXML)) + 1
+//@ func cmd.newickCmd.RunE
+//@   flag noframe
+//@   flag countcalls
+//@   recv treechan [message_is_a_tree_or_an_error] msg.Err == nil ==> msg.Tree != nil
+//@   call cmd.readTrees [the_trees_come_from_the_input_option] a0 == intreefile
+//@   call (*tree.Tree).Newick [every_tree_read_without_error_is_written] a0 == t.Tree && t.Err == nil
+//@   return@L1 [an_erroneous_tree_stops_the_command_with_its_error] result == t.Err && result != nil
+//@   loop 1
+//@     step [one_line_per_tree] ghost(ncalls_Newick) == atHead(ghost(ncalls_Newick)) + 1 && ghost(ncalls_WriteString) == atHead(ghost(ncalls_WriteString)) + 1
